@@ -101,6 +101,21 @@ theorem textOfL_congr (s1 s2 : StrClass → Bool) (h : ∀ c, s1 c = s2 c) (l : 
 end
 
 mutual
+theorem textOf_eq_filter (sel : StrClass → Bool) (n : Node) :
+    textOf sel n = ((strNodes n).filter (fun p => sel p.1)).map (·.2) := by
+  cases n with
+  | str c v => cases h : sel c <;> simp [textOf, strNodes, h]
+  | tag nm i ks => simp only [textOf, strNodes]; exact textOfL_eq_filter sel ks
+theorem textOfL_eq_filter (sel : StrClass → Bool) (l : List Node) :
+    textOfL sel l = ((strNodesL l).filter (fun p => sel p.1)).map (·.2) := by
+  cases l with
+  | nil => simp [textOfL, strNodesL]
+  | cons k ks =>
+    simp only [textOfL, strNodesL, List.filter_append, List.map_append]
+    rw [textOf_eq_filter sel k, textOfL_eq_filter sel ks]
+end
+
+mutual
 theorem mem_textOf (sel : StrClass → Bool) (n : Node) (p : PStr) :
     p ∈ textOf sel n ↔ ∃ c, Occurs n c p ∧ sel c = true := by
   cases n with
